@@ -45,6 +45,7 @@ type editor struct {
 	underRep bool // the group being edited sits under a repeated ancestor
 	underOpt bool // ... or under an optional group
 	entry    string
+	shuffled bool
 }
 
 // editGroup edits the children of a group-like node.
@@ -141,11 +142,23 @@ func (e *editor) editGroup(src []ref.Node, depth int) ([]ref.Node, []M) {
 		}
 		ms = append(ms, m)
 	}
-	// parquet.Group orders fields by name: sort the target's children the same way
+	// two thirds of the groups list their fields by name (what parquet.Group does), one third
+	// in a shuffled order (what a Go struct or another writer's file may declare)
 	for i := 1; i < len(out); i++ {
 		for j := i; j > 0 && out[j].Name < out[j-1].Name; j-- {
 			out[j], out[j-1] = out[j-1], out[j]
 			ms[j], ms[j-1] = ms[j-1], ms[j]
+		}
+	}
+	if len(out) > 1 && rapid.IntRange(0, 2).Draw(e.t, "shuffle") == 0 {
+		for i := len(out) - 1; i > 0; i-- {
+			j := rapid.IntRange(0, i).Draw(e.t, "swap")
+			if i != j {
+				out[i], out[j] = out[j], out[i]
+				ms[i], ms[j] = ms[j], ms[i]
+				e.edited = true
+				e.shuffled = true
+			}
 		}
 	}
 	return out, ms
@@ -435,7 +448,19 @@ func runCase(c Case, o *kit.Obs) *kit.Failure {
 		walk(c.Map.Ch[i], tc.Rep != "req" || tc.Kind == "list" || tc.Kind == "map")
 	}
 	o.ClassIf(nestedEdit, "added-below-optional-or-repeated")
-	if len(rows) > 0 && (nestedEdit || len(tcols) != len(scols)) {
+	reordered := false
+	var ord func(n *ref.Node)
+	ord = func(n *ref.Node) {
+		for i := range n.Children {
+			if i > 0 && n.Kind == "group" && n.Children[i-1].Name > n.Children[i].Name {
+				reordered = true
+			}
+			ord(&n.Children[i])
+		}
+	}
+	ord(&c.Target)
+	o.ClassIf(reordered, "reordered-fields")
+	if len(rows) > 0 && (nestedEdit || reordered || len(tcols) != len(scols)) {
 		o.NonTrivial()
 	}
 	return nil
@@ -466,7 +491,7 @@ var spec = &kit.Spec[Case]{
 	Property: "C12",
 	Name:     "convert",
 	Rule: "a random nested source schema (≤6 leaves, lists, maps, optional groups) and rows; the target is produced by an edit script applied at every group level (root, nested groups, list elements, map values): delete fields (each group keeps ≥1 original field), " +
-		"add up to 4 optional/required leaves or small groups whose names sort before, between or after the existing ones (so column indexes shift); the same script applied to the value trees (drop, insert null / zero) and shredded by the reference model gives the expected streams. " +
+		"list the fields of a third of the groups in a shuffled order instead of by name, add up to 4 optional/required leaves or small groups whose names sort before, between or after the existing ones (so column indexes shift); the same script applied to the value trees (drop, insert null / zero) and shredded by the reference model gives the expected streams. " +
 		"Entry points: NewReader(file, target), ConvertRowGroup + Rows, ConvertRowReader, CopyRows into a target writer, MergeRowGroups(row groups, target) with and without a declared sorting column. Non-trivial = at least one row and (a field added below an optional/repeated ancestor, or the number of columns changed).",
 	Assumptions: []string{
 		"only delete/add edits (parquet.Group orders fields by name, so sibling permutation shows up as index shifts caused by inserted names); type conversions and incompatible targets are not generated",
